@@ -61,7 +61,7 @@ func (d *dumper) parseContracts(p *packages.Package, lines []*contractSrc, decls
 		cur["clauses"] = cl
 		out[curKey] = cur
 	}
-	kw := regexp.MustCompile(`^\s*(func|iface|requires|ensures|loop|trusted|pure|abstract|stub|opaque|canary|assume|modifies|nosafety|noframe|unfold|inline|bounded|note|paths|trusts|allocates|waits|cover|emits|observe|dispatch)\b(.*)$`)
+	kw := regexp.MustCompile(`^\s*(func|iface|requires|ensures|loop|trusted|pure|abstract|stub|opaque|canary|assume|modifies|nosafety|noframe|unfold|inline|bounded|note|paths|trusts|allocates|waits|cover|emits|observe|dispatch|operation)\b(.*)$`)
 	for _, l := range lines {
 		m := kw.FindStringSubmatch(l.text)
 		if m == nil {
@@ -93,7 +93,7 @@ func (d *dumper) parseContracts(p *packages.Package, lines []*contractSrc, decls
 			cur = map[string]any{"key": curKey, "ln": ln, "flags": map[string]any{"iface": true}}
 			clauses = nil
 			last = nil
-		case "trusted", "pure", "abstract", "stub", "opaque", "nosafety", "noframe", "inline", "bounded", "note", "modifies", "unfold", "paths", "emits", "observe", "dispatch":
+		case "trusted", "pure", "abstract", "stub", "opaque", "nosafety", "noframe", "inline", "bounded", "note", "modifies", "unfold", "paths", "emits", "observe", "dispatch", "operation":
 			if cur != nil {
 				cur["flags"].(map[string]any)[m[1]] = rest
 			}
